@@ -800,6 +800,72 @@ fn forked_child_reads_back<M: GuestMemory>(mem: &M, flat: &Flat, backend: &str) 
     }
 }
 
+/// ONE memory object shared by reference between threads, each working in its own region (guest
+/// memory is meant to be used by several vCPU / device threads at once): every access is
+/// compared with the thread's own model of its region. A lookup structure that is updated on use
+/// must not make an access to a mapped address fail, panic or land in another region.
+#[cfg(not(miri))]
+fn concurrent_accesses_on_one_memory_object(seed: u64) {
+    let specs: Vec<(GuestAddress, usize)> = vec![(GuestAddress(0x0), 0x1000), (GuestAddress(0x1000), 0x800), (GuestAddress(0x4000), 0x1000), (GuestAddress(0x10_0000), 0x2000), (GuestAddress(0x10_2000), 0x100), (GuestAddress(0xffff_0000), 0x1000)];
+    let gm = vm_memory::GuestMemoryMmap::<()>::from_ranges(&specs).unwrap();
+    let per = 500_000u64;
+    let fails = std::sync::Mutex::new(Vec::<String>::new());
+    let panics = std::thread::scope(|sc| {
+        let hs: Vec<_> = specs
+            .iter()
+            .enumerate()
+            .map(|(t, (base, len))| {
+                let gm = &gm;
+                let fails = &fails;
+                let (base, len) = (base.0, *len);
+                sc.spawn(move || {
+                    let mut r = Rng::new(seed, "c03-conc", t as u64);
+                    let mut model = vec![0u8; len];
+                    let _ = gm.write_slice(&model, GuestAddress(base));
+                    for i in 0..per {
+                        let n = 1 + r.usize_below(24);
+                        let off = r.usize_below(len - n + 1);
+                        let a = GuestAddress(base + off as u64);
+                        let bad = match r.below(5) {
+                            0 => {
+                                let d = r.random_bytes(n);
+                                model[off..off + n].copy_from_slice(&d);
+                                gm.write(&d, a).ok() != Some(n)
+                            }
+                            1 => {
+                                let mut b = vec![0u8; n];
+                                gm.read(&mut b, a).ok() != Some(n) || b != model[off..off + n]
+                            }
+                            2 if n >= 8 => {
+                                let v = r.next();
+                                model[off..off + 8].copy_from_slice(&v.to_ne_bytes());
+                                gm.write_obj::<u64>(v, a).is_err()
+                            }
+                            3 if n >= 4 => gm.read_obj::<u32>(a).ok() != Some(u32::from_ne_bytes(model[off..off + 4].try_into().unwrap())),
+                            _ => !(gm.address_in_range(a) && gm.check_range(a, n) && gm.find_region(a).map(|rg| rg.start_addr().0) == Some(base)),
+                        };
+                        if bad {
+                            fails.lock().unwrap().push(format!("thread {} (region at {:#x}), operation {}: access at {:#x}+{} failed or returned other bytes than this thread wrote", t, base, i, a.0, n));
+                            return;
+                        }
+                    }
+                })
+            })
+            .collect();
+        hs.into_iter().map(|h| h.join().is_err()).filter(|e| *e).count()
+    });
+    let f = fails.lock().unwrap();
+    if panics > 0 {
+        out::viol("C03/concurrent/panic-in-a-thread-accessing-its-own-region", jobj! {"threads_that_panicked" => panics});
+    }
+    if let Some(first) = f.first() {
+        out::viol("C03/concurrent/access-to-a-mapped-address-failed-or-returned-foreign-bytes", J::s(first.clone()));
+    }
+    out::key("concurrent|one-memory-object|six-threads-six-regions", true);
+    out::count("concurrent_accesses", (per * specs.len() as u64) as i128);
+    out::eval(per * specs.len() as u64);
+}
+
 pub fn run(args: &Args) {
     out::set_quiet_cases(true);
     #[cfg(not(feature = "xen"))]
@@ -812,6 +878,12 @@ pub fn run(args: &Args) {
     if args.shard().0 == 0 && !cfg!(miri) && !args.flag("nohuge") {
         if let Err(p) = guarded(huge_region_streams) {
             out::viol(&format!("C03/panic/huge/{}", panic_sig(&p)), J::s(p));
+        }
+    }
+    #[cfg(not(miri))]
+    if args.shard().0 == 2 % args.shard().1 && !args.flag("noconc") {
+        if let Err(p) = guarded(|| concurrent_accesses_on_one_memory_object(args.seed())) {
+            out::viol(&format!("C03/panic/concurrent/{}", panic_sig(&p)), J::s(p));
         }
     }
     let minops = args.u64("minops", 20);
